@@ -208,6 +208,20 @@ def _run_laws(desc):
             sh.violation("transform.%s:integer-omega-array-gives-another-answer-than-the-same-angles-as-floats" % name, case,
                          {"max_diff": float(np.abs(a_ - b_).max()) if a_.shape == b_.shape else None})
         sh.evaluations += 1
+    # ... and the other angle containers as integer arrays (whole-degree two-theta / eta tables): same answers as for floats
+    tth_n, eta_n = np.arange(5, 5 + 3 * ni, 3), np.arange(-170, -170 + 19 * ni, 19)
+    for name, fi, ff in (("compute_k_vectors", lambda: tr.compute_k_vectors(tth_n, eta_n, wvln), lambda: tr.compute_k_vectors(tth_n.astype(float), eta_n.astype(float), wvln)),
+                         ("compute_g_vectors", lambda: tr.compute_g_vectors(tth_n, eta_n, om_i, wvln, wedge=wedge, chi=chi),
+                          lambda: tr.compute_g_vectors(tth_n.astype(float), eta_n.astype(float), om_f, wvln, wedge=wedge, chi=chi)),
+                         ("compute_xyz_from_tth_eta", lambda: np.array(tr.compute_xyz_from_tth_eta(tth_n, eta_n, om_i, t_x=t_[0], t_y=t_[1], t_z=t_[2], wedge=wedge, chi=chi,
+                                                                                                distance=1e5, y_center=1000.0, z_center=1000.0, y_size=50.0, z_size=50.0)),
+                          lambda: np.array(tr.compute_xyz_from_tth_eta(tth_n.astype(float), eta_n.astype(float), om_f, t_x=t_[0], t_y=t_[1], t_z=t_[2], wedge=wedge,
+                                                                       chi=chi, distance=1e5, y_center=1000.0, z_center=1000.0, y_size=50.0, z_size=50.0)))):
+        a_, b_ = np.asarray(fi(), float), np.asarray(ff(), float)
+        if a_.shape != b_.shape or not np.allclose(a_, b_, rtol=0, atol=1e-9 * max(1.0, np.abs(b_).max())):
+            sh.violation("transform.%s:integer-angle-arrays-give-another-answer-than-the-same-angles-as-floats" % name, case,
+                         {"max_diff": float(np.abs(a_ - b_).max()) if a_.shape == b_.shape else None})
+        sh.evaluations += 1
     buf = om_f.copy()
     for fill in (None, lambda b: b.__iadd__(25.0), lambda b: b.__imul__(-1.0), lambda b: b.__setitem__(slice(None), om_f[::-1] + 0.5)):
         if fill is not None:
